@@ -238,6 +238,11 @@ def random_programs(draw):
         ops = ops + [['tick', 4], ['settle']]  # let both ends notice the end of the connection before the run is judged
     p = dict(p, ops=ops, inter=inter)
     p['cfg'] = dict(p['cfg'], idmask=None)
+    if fault is not None and not any((sp.get('sub') or {}).get('on_error_start') is not None for sp in inter) and \
+            draw(st.integers(0, 2)) == 0:
+        # the application's close notification waits until its outstanding request-responses have their outcome (or sleeps)
+        p['cfg']['on_close_waits'] = draw(st.sampled_from(['pending', 'pending', 0.3]))
+        p['ops'] = p['ops'] + [['adv', 500], ['tick', 3], ['settle']]
     return p
 
 
